@@ -34,7 +34,9 @@ Judge(res, want) ==
 TQuery ==
   /\ Step("q")
   /\ LET want == Eval(C, Ev.q)
-     IN viol' = AddViol((IF Ev.err # "" THEN {"C07_query_failed"} ELSE Judge(Ev.res, want) \cup Judge(Ev.res2, want))
+     IN viol' = AddViol((IF Ev.err # "" THEN {"C07_query_failed"}
+                         ELSE Judge(Ev.res, want) \cup Judge(Ev.res2, want)
+                              \cup (IF Has(Ev, "res3") THEN Judge(Ev.res3, want) ELSE {}))   \* res3: scoring switched off
                         \* both searches ran on the SAME reader (all matches, then top-N): a reader is an immutable view
                         \cup (IF Ev.err = "" /\ Range(Ev.res) # Range(Ev.res2) THEN {"C04_same_reader_same_query_different_answers"} ELSE {}))
   /\ UNCHANGED <<C, nq>>
